@@ -46,6 +46,7 @@ type PathSample struct {
 type Limits struct {
 	MaxDecisions  int
 	MaxSteps      int64
+	HangSteps     int64 // >0: a path longer than this is reported as a termination counterexample
 	MaxPaths      int
 	BranchTimeout time.Duration
 	AssertTimeout time.Duration
